@@ -51,8 +51,14 @@ def project(sensors, transient=True):
     """Canonical text of a sensors mapping; same layout as the model driver's `showSensors`."""
     out = []
     for sid, s in sensors.items():
+        if not (hasattr(s, "children") and hasattr(s, "sensor_id")):
+            out.append(f"N{pkey(sid)}{{not-a-node:{type(s).__name__}}}")        # e.g. a plain dict after a bad load
+            continue
         ch = []
         for cid, c in s.children.items():
+            if not (hasattr(c, "values") and hasattr(c, "id")):
+                ch.append(f"{pkey(cid)}:not-a-child:{type(c).__name__}")
+                continue
             vals = ",".join(f"{pkey(k)}={pstr(v)}" for k, v in c.values.items())
             ch.append(f"{pkey(cid)}:{pint(c.id)}:{pint(c.type)}:{pstr(c.description)}:V({vals})")
         ds, q, r = [], "", "0"
@@ -81,6 +87,13 @@ def project_nodes(sensors):
 
 def typed(sensors):
     """Is the mapping inside the model's typed state space?"""
+    try:
+        return _typed(sensors)
+    except AttributeError:
+        return False            # something in it is not a node / child object at all
+
+
+def _typed(sensors):
     for sid, s in sensors.items():
         if type(sid) is not int or type(s.sensor_id) is not int:
             return False
@@ -385,11 +398,14 @@ class FileProxy:
 
     def write(self, data):
         self._shim.op("write", self._path)
+        self._shim.buffered.add(self._path)          # in the process's buffer, not yet handed to the OS
         return self._real.write(data)
 
     def flush(self):
         self._shim.op("flush", self._path)
-        return self._real.flush()
+        out = self._real.flush()
+        self._shim.buffered.discard(self._path)
+        return out
 
     def fileno(self):
         return self._real.fileno()
@@ -404,6 +420,10 @@ class FileProxy:
                 # the process is gone: buffered data never reaches the file
                 self._shim.abandon(self._real)
             else:
+                if self._path in self._shim.buffered:
+                    # close() hands the rest of the buffer to the OS only now: after any fsync, so not durable
+                    self._shim.buffered.discard(self._path)
+                    self._shim.unsynced.add(self._path)
                 self._real.close()
 
     def __enter__(self):
@@ -436,9 +456,11 @@ class OsProxy:
         return fd
 
     def fsync(self, fd):
-        self._shim.op("fsync", self._shim.fd_path.get(fd))
+        path = self._shim.fd_path.get(fd)
+        self._shim.op("fsync", path)
         res = os.fsync(fd)
-        self._shim.unsynced.discard(self._shim.fd_path.get(fd))
+        if path not in self._shim.buffered:
+            self._shim.unsynced.discard(path)        # only what was flushed before is made durable
         return res
 
     def rename(self, src, dst):
@@ -486,6 +508,7 @@ class FsShim:
         self.only = only            # predicate (name, args): fail the first matching op instead of an index
         self.ops = []
         self.unsynced = set()
+        self.buffered = set()
         self.fd_path = {}
         self.dead = False
         self.fired = False
